@@ -44,6 +44,7 @@ TraceNext ==
           \/ e.e = "ConnFails"          /\ ConnFails(e.c, e.f)
           \/ e.e = "ReplaceCheck"       /\ ReplaceCheck
           \/ e.e = "ReplaceOpen"        /\ ReplaceOpen(e.f)
+          \/ e.e = "ReplaceUse"         /\ ReplaceUse
           \/ e.e = "ReplacePublish"     /\ ReplacePublish
           \/ e.e = "ReplaceRetire"      /\ ReplaceRetire
           \/ e.e = "ShutdownMark"       /\ ShutdownMark
